@@ -126,6 +126,20 @@ def check_graph(case, sub="graphs"):
         raise Violation(sub, "invalid-tableau", "get_clifford_tableau_from_graph", "graph", "; ".join(probs))
     if not rp.denotes(ct, v, n):
         raise Violation(sub, "state-mismatch", "get_clifford_tableau_from_graph", "graph", "tableau does not denote |G>")
+    # the same graph object with one edge moved in place (node and edge counts unchanged), asked again
+    edges = rg.edges_from_mask(n, mask)
+    non_edges = [pq for pq in rg.pairs(n) if pq not in edges]
+    if edges and non_edges:
+        nodes = list(g.nodes)
+        (a, b), (c, d) = edges[mask % len(edges)], non_edges[mask % len(non_edges)]
+        g.remove_edge(nodes[a], nodes[b])
+        g.add_edge(nodes[c], nodes[d])
+        mask2 = mask ^ (1 << rg.pairs(n).index((a, b))) ^ (1 << rg.pairs(n).index((c, d)))
+        ct2 = guarded(sub, "graph:edited_in_place", get_clifford_tableau_from_graph, g)
+        if rp.clifford_tableau_problems(ct2) or not rp.denotes(ct2, rg.graph_state(n, mask2), n):
+            raise Violation(sub, "state-mismatch", "get_clifford_tableau_from_graph", "graph:edited_in_place",
+                            "after moving an edge of the same graph object the tableau does not denote the graph as it is now")
+        cl.append("asked_again_after_edit")
     return Info(nontrivial=(bin(mask).count("1") >= 2), classes=cl)
 
 
